@@ -8,8 +8,9 @@ EXPLANATION = (
     "return of the callback is match.group(0) or a string built (data flow only) from groups 1,2,4,5, a space and the ellipsis "
     "character; the rewrite is wired only through rewrite_text_content, whose store is dominated by isinstance(element, RawText); "
     "the container table excludes code / HTML / literal / autolink / ref-def classes; text is coalesced first (coalesce_lines=True "
-    "at the call site); sibling rule: every rewriter handed to the tree rewrite protects template tags; the option influences "
-    "only its guarded call. Not decided: idempotence of the rewrite, equality 'up to line wrapping'."
+    "at the call site); sibling rule: every rewriter handed to the tree rewrite protects template tags - with an unconditional "
+    "TEMPLATE_TAG_PATTERN scan and a decision per match that carries no state between matches; the ellipsis pass is the last text "
+    "rewrite before rendering (R-REWRITE-order); the option influences only its guarded call. Not decided: idempotence of the rewrite, equality 'up to line wrapping'."
 )
 
 
